@@ -167,16 +167,21 @@ Theorem alignment_rows : forall left pos, NoDup pos -> forall rows a out,
   exists row, get out i = Ok row /\ PyViews.overwrite a left pos h = Ok row.
 Proof. exact alignment_rows_l. Qed.
 
-(* Variant.counts(): finding C03-counts-duplicate-user-alleles.  With a duplicate in the user
-   allele list (documented as allowed) the Counter reports 0 carriers for an allele that one
-   sample carries; without duplicates every allele gets the number of genotypes equal to its
-   index. *)
-Theorem counts_duplicate_refuted :
-  exists (r : decode_result) (a : allele),
-    PyViews.carriers r a = 1 /\ PyViews.dict_get (PyViews.counts_model r) (Some a) = Some 0.
-Proof. exact counts_duplicate_refuted_w. Qed.
+(* Variant.counts() (repaired by /repo commit 8615230): every allele of the returned list,
+   duplicated in a user allele list or not, is mapped to the number of requested nodes whose
+   genotype reads as that allele.  Unconditional in the genotypes and the allele list. *)
+Theorem counts_correct : forall g al hm a,
+  In a al ->
+  PyViews.dict_get (PyViews.counts_model (g, al, hm)) (Some a)
+  = Some (PyViews.carriers (g, al, hm) a).
+Proof. exact counts_correct_l. Qed.
 
-Theorem counts_without_duplicates : forall g al hm i a,
-  NoDup al -> get al i = Ok a ->
-  PyViews.dict_get (PyViews.counts_model (g, al, hm)) (Some a) = Some (PyViews.count_eq g i).
-Proof. exact counts_without_duplicates_l. Qed.
+(* Historical record about the *pinned* code only (assignment instead of +=, model
+   counts_model_pinned, not used by the correspondence any more): with a duplicated user allele
+   it reported 0 carriers for an allele one sample carries; the current model reports 1. *)
+Theorem counts_duplicate_pinned_refuted :
+  exists (r : decode_result) (a : allele),
+    PyViews.carriers r a = 1 /\
+    PyViews.dict_get (PyViews.counts_model_pinned r) (Some a) = Some 0 /\
+    PyViews.dict_get (PyViews.counts_model r) (Some a) = Some 1.
+Proof. exact counts_duplicate_pinned_refuted_w. Qed.
